@@ -1771,7 +1771,11 @@ fn main() {
 		for l in &cfg.lemma {
 			ctx.out.buf.push_str(&format!("// ---- lemma over the contracts above (hand-written proof; clauses from the sidecar)\npub proof fn {}({})\n", l.name, l.params));
 			for (kw, cls) in [("requires", &l.requires), ("ensures", &l.ensures)] {
-				let act: Vec<&Clause> = cls.iter().filter(|c| c.active(&mode)).collect();
+				let mut owned: Vec<Clause> = cls.iter().filter(|c| c.active(&mode)).cloned().collect();
+				if kw == "ensures" && ctx.canary && ctx.canary_fns.as_ref().map(|v| v.iter().any(|x| x == &l.name)).unwrap_or(true) {
+					owned.push(Clause::Full { label: Some("__canary".to_string()), props: None, clause: "false".to_string(), mode: None });
+				}
+				let act: Vec<&Clause> = owned.iter().collect();
 				if act.is_empty() {
 					continue;
 				}
@@ -1824,6 +1828,7 @@ fn main() {
 		"out": out_path, "prelude": prelude_ranges,
 		"spec_range": [spec_start, spec_end], "tail_start": tail_start,
 		"items": ctx.items_meta, "marks": marks, "segments": segs,
+		"lemmas": cfg.lemma.iter().map(|l| l.name.clone()).collect::<Vec<_>>(),
 		"rules": ctx.rules, "dropped_macro_calls": ctx.dropped_calls,
 		"tokens": {"src_total": ctx.tok_src_total, "verbatim": ctx.tok_verbatim},
 	});
